@@ -425,6 +425,88 @@ def inline_helpers(ctx, rel, ik, s, caller_ret=None):
         if not changed: break
     return s
 
+
+# --------------------------------------------------------------------------------------------
+# R-continue: Verus has no `continue` in `for` loops.  When every `continue;` of a loop body is the LAST statement of a top-level
+# `if C { ...; continue; }` (no else) of that body, the loop body `S1; if C { T; continue; } REST` is rewritten to
+# `S1; if C { T } else { REST }` - the same control flow.  Anything else is left alone (and then stays outside the verifier).
+# --------------------------------------------------------------------------------------------
+def _top_stmts(inner):
+    """split a block's inner text into top-level statements (text pieces whose concatenation is the input)"""
+    out = []; j = 0; n = len(inner); start = 0
+    while j < n:
+        c = inner[j]
+        if c == '"':
+            j += 1
+            while j < n and inner[j] != '"':
+                if inner[j] == "\\": j += 1
+                j += 1
+        elif c in "([":
+            j = find_matching(inner, j)
+        elif c == "{":
+            k = find_matching(inner, j)
+            rest = inner[k + 1:].lstrip()
+            pre = inner[start:j]
+            if re.match(r"\s*(if|for|while|loop|match|unsafe)\b", pre) and not rest.startswith((".", ";", "?", ")", ",", "else")):
+                out.append(inner[start:k + 1]); start = k + 1
+            j = k
+        elif c == ";":
+            out.append(inner[start:j + 1]); start = j + 1
+        j += 1
+    if inner[start:].strip(): out.append(inner[start:])
+    elif inner[start:]: out[-1:] = [out[-1] + inner[start:]] if out else [inner[start:]]
+    return out
+
+def _rewrite_continue_block(inner):
+    if "continue" not in inner: return inner
+    stmts = _top_stmts(inner)
+    for idx, st in enumerate(stmts):
+        m = re.match(r"(\s*)if\b", st)
+        if not m or "continue" not in st: continue
+        ob = st.find("{")
+        # find the block's `{` at depth 0 of the condition
+        j = m.end(); 
+        while j < len(st):
+            if st[j] in "([": j = find_matching(st, j)
+            elif st[j] == "{": break
+            j += 1
+        if j >= len(st): return None
+        cb = find_matching(st, j)
+        if st[cb + 1:].strip(): return None            # has else / trailing code
+        body = st[j + 1:cb]
+        mm = re.search(r"continue\s*;\s*$", body)
+        if not mm or "continue" in body[:mm.start()]: return None
+        rest = "".join(stmts[idx + 1:])
+        rest2 = _rewrite_continue_block(rest)
+        if rest2 is None: return None
+        before = "".join(stmts[:idx])
+        if "continue" in before: return None
+        return before + st[:j + 1] + body[:mm.start()] + "} else {" + rest2 + "}"
+    return None if re.search(r"\bcontinue\b", inner) else inner
+
+def rule_continue(ctx, file, s):
+    if not re.search(r"\bcontinue\s*;", s): return s
+    i = 0
+    while True:
+        m = re.search(r"\bfor\s+[^;{]*?\bin\b", s[i:])
+        if not m: break
+        st = i + m.start(); j = st
+        while j < len(s):
+            if s[j] in "([": j = find_matching(s, j)
+            elif s[j] == "{": break
+            j += 1
+        if j >= len(s): break
+        cb = find_matching(s, j)
+        inner = s[j + 1:cb]
+        if re.search(r"\bcontinue\s*;", inner) and not re.search(r"\b(for|while|loop)\b", inner):
+            new = _rewrite_continue_block(inner)
+            if new is not None and new != inner:
+                ctx.log("R-continue", file, 0, "for ... { ..; if C { ..; continue; } REST }", "for ... { ..; if C { .. } else { REST } }")
+                s = s[:j + 1] + new + s[cb:]
+                cb = j + 1 + len(new)
+        i = j + 1
+    return s
+
 FOLD_SRC = re.compile(r"Self\((\w+)\.iter\(\)\.fold\((\w+), \|mut (\w+), (\w+)\| \{(.*?)\n\s*\3\n\s*\}\)\)", re.S)
 def rule_fold(ctx, file, s):
     def f(m):
@@ -855,6 +937,7 @@ class FileEmitter:
                 if not ext:
                     b = inline_helpers(ctx, self.rel, ik, b, d["ret"])
                     b = rule_fold(ctx, self.rel, b)
+                    b = rule_continue(ctx, self.rel, b)
                     b = rule_body_text(ctx, self.rel, b)
                     b = self.rule_lift(b, spec, it)
                     b = self.weave_body(b, spec, it)
